@@ -5,5 +5,5 @@ From OV.C03 Require Import Model Spec.
 Extraction Language OCaml.
 Extraction "../_work/extract/C03/model.ml"
   fixed pinned state0 step run read find_res pool_destroy
-  p_align p_size p_reserved p_res p_gen p_oob d_alloc d_max r_id r_off r_sz
+  p_align p_size p_reserved p_res p_gen p_oob p_tie d_alloc d_max r_id r_off r_sz
   sstate0 s_step s_read s_find s_live s_fam union_size round_out.
